@@ -47,7 +47,7 @@ func c13Revs() (client []int, server []int) {
 func init() {
 	cl, sv := c13Revs()
 	Register(&Prop{
-		ID: "C13", Engine: "A", Quick: len(cl)*len(sv) + 2500, Thorough: 200000, Level: "exploration",
+		ID: "C13", Engine: "A", Quick: len(cl)*len(sv) + 6000, Thorough: 200000, Level: "exploration",
 		Rule: fmt.Sprintf("the first %d runs enumerate every (client revision, server revision) pair over the threshold-neighbour grid (%d x %d) with an immediate hello; the remaining runs draw a pair and a response kind (hello, hello delayed by less than the handshake timeout, exception chain, other valid packet, undefined code, truncated hello then FIN, FIN, RST, stall until the handshake timeout, stall with an earlier context deadline), credentials strings, timeouts, Connect or Dial, delivery segmentation and schedule; after a successful handshake one query with telemetry is run and both directions are checked at the negotiated revision; distinct = schedule digests; non-trivial = a revision pair with client != server or a non-immediate response", len(cl)*len(sv), len(cl), len(sv)),
 		Run:  runC13,
 	})
